@@ -1,7 +1,16 @@
 """Worker for the serialiser properties (C10 snarkjs, C11 zkinterface): runs a program (or installs
-a trace directly) on the selected real backend, calls its real prove() in a scratch directory and
-returns the recorded trace and the bytes written."""
-import sys, os, io, tempfile, shutil, contextlib
+a trace through the backend's own entry points) on the selected real backend, calls its real
+prove() in a scratch directory and returns the recorded trace and the bytes written.
+
+Line kinds
+  M|id                                   modulus of the selected backend
+  P|id|cfg|program                       run a program (harness/worker.py), then prove() in a fresh directory
+  JT|id|p|pubs|privs|cons                install a trace with pubval()/privval()/add_constraint(), then prove() in a fresh directory
+  JS|id|p|<json [stage, ...]>            several exports in ONE process and ONE directory: every stage = {"pub": [...], "priv": [...],
+                                         "cons": "..."} is appended to the trace through the same entry points and followed by prove();
+                                         reply: id|ok|p|<json [{"trace": "pubs|privs|cons", "files": {name: hex}}, ...]>
+A file that prove() did not (re)write is simply absent from / unchanged in the reply: judging that is the check's business."""
+import sys, os, io, json, tempfile, shutil, contextlib
 sys.path.insert(0, os.path.dirname(os.path.abspath(__file__)))
 import worker as W      # program interpreter over the real pysnark (imports pysnark.runtime)
 
@@ -13,20 +22,50 @@ def trace_str():
     return f"{','.join(map(str, B.pubvals))}|{','.join(map(str, B.privvals))}|{cons}"
 
 
-def prove_here():
-    d = tempfile.mkdtemp(prefix="verif-prove-")
+def read_dir(d):
+    out = {}
+    for f in sorted(os.listdir(d)):
+        out[f] = open(os.path.join(d, f), "rb").read().hex()
+    return out
+
+
+def prove_in(d):
     cwd = os.getcwd()
     os.chdir(d)
     try:
+        raised = None
         with contextlib.redirect_stderr(io.StringIO()), contextlib.redirect_stdout(io.StringIO()):
-            B.prove()
-        out = {}
-        for f in sorted(os.listdir(d)):
-            out[f] = open(os.path.join(d, f), "rb").read().hex()
+            try:
+                B.prove()
+            except Exception as e:       # an export that raises on a recorded trace is an observation, not a harness failure
+                raised = f"{type(e).__name__}: {e}"
+        out = read_dir(d)
+        if raised is not None:
+            out["!raised"] = raised.encode().hex()
         return out
     finally:
         os.chdir(cwd)
+
+
+def prove_here():
+    d = tempfile.mkdtemp(prefix="verif-prove-")
+    try:
+        return prove_in(d)
+    finally:
         shutil.rmtree(d, ignore_errors=True)
+
+
+def install(pubs, privs, cons):
+    """append to the trace through the backend's own entry points (what runtime.py calls)"""
+    for x in pubs:
+        B.pubval(int(x))
+    for x in privs:
+        B.privval(int(x))
+    for c in [c for c in cons.split(";") if c]:
+        lcs = []
+        for l in c.split("#"):
+            lcs.append(B.LinearCombination({int(kv.split(":")[0]): int(kv.split(":")[1]) for kv in l.split(",") if kv}))
+        B.add_constraint(*lcs)
 
 
 def main():
@@ -40,17 +79,23 @@ def main():
                 status = res.split("|")[1]
                 files = prove_here()
                 out = f"{f[1]}|{status}|{B.get_modulus()}|{trace_str()}|" + "|".join(f"{k}={v}" for k, v in files.items())
-            elif f[0] == "JT":         # install a trace directly: JT|id|p|pubs|privs|cons
+            elif f[0] == "JT":         # install a trace: JT|id|p|pubs|privs|cons
                 W.reset({"p": int(f[2])})
-                B.pubvals.extend(int(x) for x in f[3].split(",") if x)
-                B.privvals.extend(int(x) for x in f[4].split(",") if x)
-                for c in [c for c in f[5].split(";") if c]:
-                    lcs = []
-                    for l in c.split("#"):
-                        lcs.append(B.LinearCombination({int(kv.split(":")[0]): int(kv.split(":")[1]) for kv in l.split(",") if kv}))
-                    B.constraints.append(lcs)
+                install([x for x in f[3].split(",") if x], [x for x in f[4].split(",") if x], f[5])
                 files = prove_here()
                 out = f"{f[1]}|ok|{B.get_modulus()}|{trace_str()}|" + "|".join(f"{k}={v}" for k, v in files.items())
+            elif f[0] == "JS":         # several exports of a growing trace in one process and one directory
+                W.reset({"p": int(f[2])})
+                stages = json.loads(line.rstrip("\n").split("|", 3)[3])
+                d = tempfile.mkdtemp(prefix="verif-prove-")
+                res = []
+                try:
+                    for st in stages:
+                        install(st.get("pub", []), st.get("priv", []), st.get("cons", ""))
+                        res.append({"trace": trace_str(), "files": prove_in(d)})
+                finally:
+                    shutil.rmtree(d, ignore_errors=True)
+                out = f"{f[1]}|ok|{B.get_modulus()}|" + json.dumps(res)
             else:
                 out = "bad-line"
         except BaseException as e:
